@@ -211,6 +211,6 @@ def nontrivial(c):
 
 
 PARTS = [
-    Part("consistent", strategy=case, oracle=oracle, nontrivial=nontrivial, n={"quick": 2400, "thorough": 20000},
+    Part("consistent", strategy=case, oracle=oracle, nontrivial=nontrivial, n={"quick": 8000, "thorough": 60000},
          sample=lambda c: {"mode": c["mode"], "alg": c["alg"], "gkf": nm.gkf_text(c["net"])[:1200]}),
 ]
